@@ -936,7 +936,11 @@ func (g *p2pRig) checkEmittedGetHeaders(c *nodeConn, gh *wire.MsgGetHeaders) {
 		// "after the last one": the header matching the last checkpoint has been received and is on the longest chain
 		lastCkOnChain := g.prevLongest[g.ckpts[len(g.ckpts)-1].Hash.String()]
 		if hs[0] >= lastCk && lastCkOnChain && !stop.IsZero() {
-			r.Fail("C07", "stop-hash", "past-last-checkpoint", "the request to %s starts at height %d, at/after the last checkpoint (%d), but still carries stop %s", c, hs[0], lastCk, short(stop))
+			nck := "checkpoints=1"
+			if len(g.ckpts) >= 2 {
+				nck = "checkpoints>=2"
+			}
+			r.Fail("C07", "stop-hash", "past-last-checkpoint|"+nck, "the request to %s starts at height %d, at/after the last checkpoint (%d of %d checkpoints), but still carries stop %s", c, hs[0], lastCk, len(g.ckpts), short(stop))
 		}
 		if isCk {
 			r.Probe("stop=checkpoint")
@@ -1067,6 +1071,15 @@ func (g *p2pRig) heal() {
 	if r.Opt["force_noreconnect"] == "1" {
 		reconnect = false
 	}
+	if g.focus == "C07" {
+		// the two recorded C06 findings (a lagging sync peer that stays; no fresh connection while not current) are
+		// C06's to explore; C07 asks for convergence after a misbehaviour under the plain liveness conditions
+		reconnect = true
+		if mode == "others-stay" {
+			mode = "others-follow"
+		}
+		r.Cfg["heal_mode"], r.Cfg["heal_reconnect"] = mode, reconnect
+	}
 	r.Cfg["heal_reconnect"] = reconnect
 	r.Logf("HEAL mode=%s", mode)
 	for _, c := range g.liveConns(nil) {
@@ -1157,6 +1170,15 @@ func (g *p2pRig) heal() {
 		th, thh = tip.Height, tip.Hash.String()[:8]
 	}
 	sig := fmt.Sprintf("mode=%s,reconnect=%v,ck-disabled=%v,fresh=%v", mode, reconnect, g.disableCk, g.fresh)
+	if g.focus == "C07" {
+		// "after either event the service still converges on an honest peer's chain": when a misbehaviour was
+		// delivered in this run, the failed convergence is C07's to report
+		for _, c := range g.conns {
+			if c.misDelivered {
+				r.Fail("C07", "no-convergence-after-misbehaviour", c.misbehaved+","+sig, "after %s delivered a %s header the service never converged on the honest node (best %s at height %d): it reports tip %s at height %d; store: %s", c, c.misbehaved, short(H.best.Hash), H.best.Height, thh, th, g.storeSummary())
+			}
+		}
+	}
 	r.Fail("C06", "no-convergence", sig, "3 simulated hours after the faults stopped, with the honest node n0 reachable and announcing (best %s at height %d), the service reports tip %s at height %d; store: %s", short(H.best.Hash), H.best.Height, thh, th, g.storeSummary())
 }
 
